@@ -27,6 +27,10 @@ def assemble(asm, *a, **kw):
         return ('err', '%s: %s' % (type(e).__name__, kernel.errline(e)[:160]), {}, {})
 
 
+def uses_self(n):
+    return any(c['where'] == 'self' or uses_self(c) for c in n['children'])
+
+
 def tree_case(ctx, case):
     """case = dict(tree=node, cwds=[...], cli=bool, compress=bool)"""
     asm = kernel.boot()
@@ -40,11 +44,12 @@ def tree_case(ctx, case):
     if ref[0] != 'ok':
         raise RuntimeError('spliced reference does not assemble: %s\n%s' % (ref[1], trees.spliced(case['tree'])))
     dirs = dict(root=os.path.dirname(main), slash='/', other=other, decoys=decoys, gone=os.path.join(base, 'gone'))
+    incs = [inc] + ([os.path.dirname(main)] if uses_self(case['tree']) else [])      # the main file's own directory as an explicit -i directory
     results = {}
     for c in case['cwds']:
         with trees.cwd(dirs[c], gone=(c == 'gone')):
             ctx.count('runs')
-            r = assemble(asm, main, include_dirs=[inc], compress=comp)
+            r = assemble(asm, main, include_dirs=list(incs), compress=comp)
         results[c] = r
         if r != ref:
             what = 'refused' if r[0] != 'ok' else ('different-bytes' if r[1] != ref[1] else 'different-tables')
@@ -67,12 +72,15 @@ def tree_case(ctx, case):
                     continue            # the command line makes its arguments absolute with the working directory; the API gets absolute paths
                 argv_main = os.path.relpath(main, dirs[c]) if rel else main
                 argv_inc = os.path.relpath(inc, dirs[c]) if rel else inc
+                more = []
+                for d in incs[1:]:
+                    more += ['-i', os.path.relpath(d, dirs[c]) if rel else d]
                 if os.path.exists(outp):
                     os.remove(outp)
                 ctx.count('runs')
                 ctx.count('cli_runs')
                 try:
-                    st, so, se = trees.run_cli(asm, [argv_main, '-i', argv_inc, '-o', outp] + (['-c'] if comp else []), dirs[c])
+                    st, so, se = trees.run_cli(asm, [argv_main, '-i', argv_inc] + more + ['-o', outp] + (['-c'] if comp else []), dirs[c])
                 except Exception as e:
                     st, se = 'raw', repr(e)
                 got = open(outp, 'rb').read() if os.path.exists(outp) else None
@@ -223,6 +231,11 @@ def run(tier, seed, t0):
             kids = [trees.node('a.asm', '.', 'first', 'plain', [chip]), trees.node('b.asm', '.', p2, 'plain', [chip])]
             cases.append(dict(tree=trees.node('main.asm', children=kids), cwds=['root', 'other']))
             cases.append(dict(tree=trees.node('main.asm', children=[chip, trees.node('mid.asm', '.', p2, 'plain', [chip])]), cwds=['other']))
+    # the main file's own directory given as -i as well: a file in another directory includes, by plain name, a file that sits beside the main file
+    for w1 in ('sub', '..', 'inc'):
+        for p1, p2 in itertools.product(trees.POSITIONS, repeat=2):
+            inner = trees.node('cfg.asm', 'self', p2, 'plain')
+            cases.append(dict(tree=trees.node('main.asm', children=[trees.node('lib.asm', w1, p1, 'plain', [inner])]), cwds=['root', 'other', 'slash'], cli=True))
     # the same chains of depth 2 and 3 with a same-named decoy planted in every directory further up the include chain (not a documented search location)
     for i, t in enumerate(chains(2, trees.DIRS, trees.POSITIONS, ['plain'])):
         cases.append(dict(tree=t, cwds=['other'], shadow=True))
